@@ -272,6 +272,7 @@ type World struct {
 	seq         int
 	stalled     map[int]chan struct{}
 	mustSurvive map[int]bool
+	creds       map[string]string
 	noModel     bool // monitors only: the model is not asked (lines are written as comments)
 	concurrent  bool // stimuli were fired concurrently: order-sensitive monitors are switched off
 }
@@ -285,6 +286,7 @@ func newWorld(o *out.W, prop string, window, queue int, creds map[string]string)
 	w.be.ClientInflightMessages = window
 	w.be.SessionQueueSize = queue
 	w.be.Credentials = creds
+	w.creds = creds
 	w.wb = &wrapBackend{MemoryBackend: w.be, w: w, mode: "sync"}
 	w.stalled = map[int]chan struct{}{}
 	w.mustSurvive = map[int]bool{}
@@ -514,6 +516,28 @@ func (w *World) KeepAliveExpire(c int) {
 	w.record(ev{kind: "stim-drop", conn: c})
 	w.o.Count("stim/keepalive-expiry")
 	time.Sleep(time.Minute)
+	w.settle()
+}
+
+// Idle lets more (fake) time pass than the broker's token timeout with nothing to do: not a model stimulus — an idle
+// connection that acknowledges promptly must not be affected
+func (w *World) Idle() {
+	// everybody acknowledges what it has received first: a full window that nobody frees for longer than the token
+	// timeout is (legitimately) a token timeout
+	for round := 0; round < 50; round++ {
+		any := false
+		for c := 1; c <= w.nconn; c++ {
+			if w.alive(c) && w.peers[c].connected && len(w.peers[c].unacked) > 0 {
+				w.AckAll(c)
+				any = true
+			}
+		}
+		if !any {
+			break
+		}
+	}
+	w.o.Count("stim/idle")
+	time.Sleep(2 * time.Minute)
 	w.settle()
 }
 
